@@ -37,6 +37,8 @@ KeyOkClauses(be, a, o) == {
     <<"C11.alg_eq_when_determined_or_told", o.alg = ExpectedAlg(be, a.entry, a.reqAlg, a.key.type)>>,
     <<"C11.keytype_eq", o.alg \in AlgNames /\ KeyTypeOf(o.alg) = a.key.type>>,
     <<"C11.signature_verifies_under_original_pub", o.sigOk.openssl = "ok" /\ o.sigOk.ring \in {"ok", "na"}>>,
+    (* the same observation is what C01 says about every artefact: a certificate made with the loaded key verifies under the signer's key *)
+    <<"C01.sig_verifies_over_embedded_tbs", o.sigOk.openssl = "ok" /\ o.sigOk.ring \in {"ok", "na"}>>,
     <<"C11.spki_alg_id_registered", o.spki.alg.raw = SpkiAlgId(a.key.type)>>,
     <<"C11.spki_key_bits_eq", o.spki.key = a.key.raw /\ o.spki.unused = 0 /\ o.spki.raw = a.key.spki>>,
     <<"C11.spki_der_strict", o.spkiStrict = <<>> >>,
